@@ -25,6 +25,8 @@ import (
 //          check (schedule point admit:checked; in the library this is inside the critical section)
 //   wG<j>  the held admission goes on: the handler parks at handler:start
 //   wO<j>  the connection of command j sends the header of an oversized message and stalls in its body
+//   wZ<j>  the connection of command j sends a COMPLETE oversized message (limit 256) whose body looks like
+//          protocol messages: it is skipped in full and answered with one ErrorResponse 54000, closing or not
 //   cT<i>  closer i tries to return now (cT<i>:ret) - or cannot yet (cT<i>:no), which is no error
 // A closer started (cS) while an admission is held cannot enter its critical section: cS<i>:blk;
 // it completes by itself as soon as the admission is let go.
@@ -170,7 +172,7 @@ func runClose(cs *Case) *Result {
 	defer wire.VerifHook.Store(nil)
 
 	s := &session{log: &evlog{}}
-	base := &Case{GPNil: true, WF: -1, Extra: map[string]string{}}
+	base := &Case{GPNil: true, WF: -1, L: 256, Extra: map[string]string{}}
 	srv, _, err := buildServer(base, s, nil)
 	if err != nil {
 		return &Result{End: "cfgerr"}
@@ -180,7 +182,12 @@ func runClose(cs *Case) *Result {
 	go func() { served <- srv.Serve(l) }()
 	conns := make([]*Conn, nconn)
 	for i := range conns {
-		conns[i] = NewConn([][]byte{plainStartup("u" + strconv.Itoa(i))}, false, -1)
+		// every connection has a portal whose Execute makes the row encoder panic (result-format code 7):
+		// the library recovers from that panic; the command still counts as finished (kind "x")
+		prep := append(plainStartup("u"+strconv.Itoa(i)), msgParse("ps", "t//r:t"+hxs("a")+";c:"+hxs("OK")+"/ok", nil)...)
+		prep = append(prep, msgBind("pp", "ps", nil, nil, []uint16{7})...)
+		prep = append(prep, msgSync()...)
+		conns[i] = NewConn([][]byte{prep}, false, -1)
 		conns[i].name = "client" + strconv.Itoa(i)
 		l.ch <- conns[i]
 		conns[i].WaitQuiescent(5 * time.Second)
@@ -237,6 +244,8 @@ func runClose(cs *Case) *Result {
 			msg = msgBind("", "", nil, nil, nil)
 		case "s":
 			msg = msgSync()
+		case "x":
+			msg = msgExecute("pp", 0)
 		}
 		conns[cm.conn].mu.Lock()
 		conns[cm.conn].segs = append(conns[cm.conn].segs, msg)
@@ -317,6 +326,8 @@ func runClose(cs *Case) *Result {
 				msg = msgBind("", "", nil, nil, nil)
 			case "s":
 				msg = msgSync()
+			case "x":
+				msg = msgExecute("pp", 0)
 			}
 			conns[cm.conn].mu.Lock()
 			conns[cm.conn].segs = append(conns[cm.conn].segs, msg)
@@ -358,6 +369,39 @@ func runClose(cs *Case) *Result {
 					break
 				}
 				time.Sleep(50 * time.Microsecond)
+			}
+			ev = append(ev, a+":"+out)
+		case "wZ":
+			cm := cmds[idx]
+			body := make([]byte, 300+idx)
+			for j := range body {
+				body[j] = 'Y'
+			}
+			copy(body, append(msgSync(), msgQuery(probeQuery("INJECTED", 0))...))
+			conns[cm.conn].mu.Lock()
+			before := len(conns[cm.conn].writes)
+			conns[cm.conn].segs = append(conns[cm.conn].segs, typed('P', body))
+			conns[cm.conn].cond.Broadcast()
+			conns[cm.conn].mu.Unlock()
+			out := "lost"
+			deadline := time.Now().Add(1500 * time.Millisecond)
+			for time.Now().Before(deadline) {
+				if quiet(cm.conn) {
+					out = "rec"
+					break
+				}
+				time.Sleep(50 * time.Microsecond)
+			}
+			conns[cm.conn].mu.Lock()
+			var fresh []byte
+			for _, w := range conns[cm.conn].writes[before:] {
+				fresh = append(fresh, w...)
+			}
+			conns[cm.conn].mu.Unlock()
+			if out == "rec" && !(len(fresh) > 0 && fresh[0] == 'E' && bytes.Contains(fresh, []byte("C54000\x00")) && bytes.Count(fresh, []byte("SERROR\x00")) == 1) {
+				ctl.mu.Lock()
+				ctl.viol = append(ctl.viol, "oversized-message-not-skipped-and-answered-once")
+				ctl.mu.Unlock()
 			}
 			ev = append(ev, a+":"+out)
 		case "wP":
@@ -506,6 +550,27 @@ func genClose(r *rand.Rand, id string) *Case {
 			// the closer tries to return while the admission is still held
 			c.Extra["closers"] = "1"
 			c.Extra["sched"] = "wP0,cS0,cT0,wG0,wF0,cR0"
+		}
+		return c
+	}
+	if r.Intn(8) == 0 {
+		// a complete oversized message arrives before, while and after a Close: recovered every time; and a
+		// command whose handler panics (recovered by the library) does not keep Close from returning
+		c.Extra["direct"] = "close"
+		c.Extra["closers"] = "1"
+		switch r.Intn(4) {
+		case 0:
+			c.Extra["cmds"] = "0:q,1:q"
+			c.Extra["sched"] = "wZ1,wA0,cS0,wZ1,wF0,cR0,wZ1"
+		case 1:
+			c.Extra["cmds"] = "0:q"
+			c.Extra["sched"] = "cS0,wZ0,cR0,wZ0"
+		case 2:
+			c.Extra["cmds"] = "0:x"
+			c.Extra["sched"] = "wA0,wF0,cS0,cR0"
+		default:
+			c.Extra["cmds"] = "0:x,1:q"
+			c.Extra["sched"] = "wA0,cS0,wF0,wA1,cR0"
 		}
 		return c
 	}
